@@ -245,10 +245,18 @@ def exec_symbolic_for(ex, node, st, sp, spec):
 
 def exec_symbolic_while(ex, node, st, spec):
     def cond(s, it):
-        outs = list(ex.eval(node.test, s))
-        if len(outs) != 1:
-            raise Unsupported("forking while condition")
-        return ex.truthy(outs[0][0], outs[0][1])
+        # a short-circuit condition (`a and b and c`) over symbolic values evaluates along several paths: the condition
+        # is the disjunction over those paths of (what the path assumed) and (its truth value); evaluated on a copy, the
+        # test of a while loop has no effect on the state
+        n0 = len(s.pc)
+        outs = list(ex.eval(node.test, s.fork()))
+        if not outs:
+            raise Unsupported("while condition without an outcome")
+        terms = []
+        for st_k, val_k in outs:
+            extra = [vals.zbool(c) for c in st_k.pc[n0:]]
+            terms.append(z3.And(*extra, vals.zbool(ex.truthy(st_k, val_k))) if extra else vals.zbool(ex.truthy(st_k, val_k)))
+        return terms[0] if len(terms) == 1 else z3.Or(*terms)
 
     def bind(s, it):
         return
